@@ -8,7 +8,7 @@ UNIT = "asmjit/core/codeholder.cpp"
 
 
 def run(chk):
-    f = chk.facts(UNIT, funcs=r"asmjit::CodeHolder::(copy_section_data|copy_flattened_data|flatten|new_section|code_size|relocate_to_base)$")
+    f = chk.facts(UNIT, funcs=r"asmjit::CodeHolder::(copy_section_data|copy_flattened_data|flatten|new_section|code_size|relocate_to_base)$|asmjit::[A-Za-z0-9_]+$")
 
     # ------------------------------------------------------------------ C10.a bounded writes
     R = "R-BOUNDED-WRITE"
@@ -108,22 +108,35 @@ def run(chk):
                  "_sections_by_order (otherwise following sections would overlap / code_size() would be wrong)")
     rb = cfg.find_fn(f, "CodeHolder::relocate_to_base")
 
-    def edge_fx(b, si, atom, holds):
-        t = rb.text(atom)
-        if holds and "_sections_by_order" in t and "last()" in t and "==" in t:
-            return [("addrtab-is-last",)]
-        return ()
-    m = Must(rb, None, edge_fx)
-    writes = []
-    for i, x in rb.ex.items():
-        if x["k"] == "binop" and x["op"] in ("=", "-=") and "_virtual_size" in rb.text(x["lhs"]) and "address_table" in rb.text(x["lhs"]):
-            writes.append(i)
-    chk.need(len(writes) >= 1, "relocate_to_base no longer adjusts the address table's _virtual_size")
-    for k, w in enumerate(writes):
-        st = m.before(w) or frozenset()
-        chk.ob(R4, "relocate_to_base|shrink#%d" % k, ("addrtab-is-last",) in st, loc=rb.loc(w),
-               detail="the address table is shrunk without having tested that it is the last section in layout order")
-    relocrules.written_buffer_sized(chk, rb)
+    unit_fns = [cfg.Fn(fo) for fo in f["functions"] if fo["file"].endswith("codeholder.cpp")]
+    nshrink = 0
+    for g in cfg.callee_closure(rb, unit_fns):
+        # in relocate_to_base itself the section is `address_table_section`; a helper receives it as a parameter
+        passed = set()
+        if g is not rb:
+            for i, x in rb.calls(lambda x: x.get("callee") == g.name):
+                for ai, a in enumerate(x.get("args", [])):
+                    if "address_table" in rb.text(a) and ai < len(g.params):
+                        passed.add(g.params[ai]["name"])
+
+        def edge_fx(b, si, atom, holds, g=g):
+            x = g.e(atom)
+            t = g.text(atom)
+            if x and x["k"] == "binop" and x["op"] in ("==", "!=") and "_sections_by_order" in t and "last()" in t and (x["op"] == "==") == holds:
+                return [("addrtab-is-last",)]
+            return ()
+        m = Must(g, None, edge_fx)
+        for i, x in sorted(g.ex.items()):
+            if x["k"] == "binop" and x["op"] in ("=", "-=") and "_virtual_size" in g.text(x["lhs"]):
+                obj = g.text(x["lhs"]).split("->")[0].strip()
+                if not ("address_table" in obj or obj in passed):
+                    continue
+                st = m.before(i) or frozenset()
+                chk.ob(R4, "relocate_to_base|shrink#%d" % nshrink, ("addrtab-is-last",) in st, loc=g.loc(i),
+                       detail="the address table is shrunk without having tested that it is the last section in layout order")
+                nshrink += 1
+    chk.need(nshrink >= 1, "relocate_to_base (and the unit helpers it calls) no longer adjust the address table's _virtual_size")
+    relocrules.written_buffer_sized(chk, rb, unit_fns)
 
     # ------------------------------------------------------------------ C10.e layout walks use the layout order
     R5 = "R-LAYOUT-ORDER"
